@@ -27,6 +27,10 @@ RULE = ("cases = (data array N 1..4 x n_time 1..64 of several kinds: "
         "one of them. twin_histories / rp_twins: non-trivial = a twin pair "
         "exists. row_independence: rows differ. Distinct = hash of the case.")
 ASSUMPTIONS = [
+    "a quarter of the twin histories carries its fluctuations on a large "
+    "level (data 2**17 + v * 2**-9, thresholds scaled alike: exact in "
+    "float64, not resolvable in single precision): Surrogates documents "
+    "and keeps double-precision data",
     "twin thresholds are float32-exact (the kernel takes a C float) and are "
     "offset by 1/128 from the dyadic data grid, so no distance equals the "
     "threshold",
@@ -313,6 +317,8 @@ def oracle_twin_history(case, rec):
     if not ok:
         return
     nt = False
+    rec.label("fine_fluctuations_on_large_level" if case.get("fine")
+              else "order_one_data")
     for idx, op in enumerate(case["ops"]):
         suffix = "" if idx == 0 else "_after_other_calls"
         n_emb = n - (op["dim"] - 1) * op["delay"]
@@ -539,6 +545,9 @@ THRESHOLDS = [1 / 128.0 + j / 8.0 for j in range(0, 10)] + \
      1 + 1 / 128.0]
 
 
+FINE_BASE, FINE_SCALE = 2.0 ** 17, 2.0 ** -9
+
+
 @st.composite
 def twin_params(draw, n):
     dim = draw(st.sampled_from([1, 1, 2, 3]))
@@ -590,6 +599,14 @@ def twin_history_cases(draw):
         op["b"] = draw(st.integers(0, 2 ** 32 - 1))
         op["direct"] = draw(st.integers(0, 2)) == 0
         ops.append(op)
+    if draw(st.integers(0, 3)) == 0:
+        # small fluctuations on a large level (pressure in Pa): an exact
+        # power-of-two rescaling of data and thresholds around 2**17, which
+        # float64 represents exactly and single precision cannot resolve
+        data = [[FINE_BASE + v * FINE_SCALE for v in row] for row in data]
+        for op in ops:
+            op["thr"] = op["thr"] * FINE_SCALE
+        return {"data": data, "ops": ops, "fine": True}
     return {"data": data, "ops": ops}
 
 
